@@ -47,10 +47,15 @@ structure VHost where
   routes : List Route
   deriving DecidableEq, Repr
 
-/-- `v2.RouterConfiguration` (name + virtual hosts; the router path is cleared by `SetRouter`) -/
+/-- `v2.RouterConfiguration`: name, the virtual hosts in effect (`VirtualHosts`), and the two fields of the embedded
+`RouterConfigurationConfig` that decide the MODE the router is persisted in: `path` = `RouterConfigPath` (`router_configs`,
+non-empty = dynamic / directory mode: one file per virtual host) and `static` = `StaticVirtualHosts` (`virtual_hosts`, what
+`UnmarshalJSON` decoded from a static configuration; empty for a router built by code or loaded from a directory). -/
 structure RouterCfg where
   name : String
   vhosts : List VHost
+  path : String := ""
+  static : List VHost := []
   deriving DecidableEq, Repr
 
 /-- `VirtualHostImpl`: the live route list of one virtual host -/
@@ -248,8 +253,9 @@ structure State where
   cstore : FMap StoredCluster    -- configmanager conf.Cluster
   listeners : FMap LiveListener  -- connHandler.listeners (by name) + stream-filter manager
   lstore : FMap ListenerCfg      -- configmanager conf.Listener
+  rpath : String → String := fun _ => ""  -- configmanager conf.routerConfigPath (a Go map: "" for an absent key)
 
-def init : State := ⟨FMap.empty, FMap.empty, FMap.empty, FMap.empty, FMap.empty, FMap.empty⟩
+def init : State := ⟨FMap.empty, FMap.empty, FMap.empty, FMap.empty, FMap.empty, FMap.empty, fun _ => ""⟩
 
 /-- an xDS endpoint: address and optional load-balancing weight -/
 structure XHost where
@@ -282,9 +288,31 @@ inductive Op
 
 /-! ### effective-config store -/
 
-/-- `configmanager.SetRouter` -/
+/-- the condition under which a statement of `SetRouter` is executed (regenerated) -/
+def condHolds (c : Gen.Updates.RCond) (cfg : RouterCfg) : Bool :=
+  match c with
+  | .always => true
+  | .pathNonEmpty => cfg.path != ""
+  | .pathEmpty => cfg.path == ""
+
+/-- what `SetRouter` puts into `conf.Routers`: the configuration it was given, its path cleared when the regenerated body
+clears it before the assignment ("so the dump api will show all routes in the router") -/
+def storedCfg (cfg : RouterCfg) : RouterCfg :=
+  if Gen.Updates.setRouter_clearsStoredPath then { cfg with path := "" } else cfg
+
+/-- what `SetRouter` leaves in `conf.routerConfigPath[name]`: the path of the configuration it was given, copied under the
+regenerated condition (`none` = never assigned) -/
+def rememberedPath (old : String) (cfg : RouterCfg) : String :=
+  match Gen.Updates.setRouter_rememberPath with
+  | some c => if condHolds c cfg then cfg.path else old
+  | none => old
+
+/-- `configmanager.SetRouter`: which fields are copied under which condition is regenerated (`Gen.Updates.setRouter_*`) -/
 def recordRouter (on : Bool) (s : State) (cfg : RouterCfg) : State :=
-  if on then { s with rstore := s.rstore.set cfg.name cfg } else s
+  if on then
+    { s with rstore := if Gen.Updates.setRouter_storesRouter then s.rstore.set cfg.name (storedCfg cfg) else s.rstore,
+             rpath := fun n => if n = cfg.name then rememberedPath (s.rpath n) cfg else s.rpath n }
+  else s
 
 /-- `configmanager.SetHosts` via `refreshHostsConfig` (only when the cluster is known to the store) -/
 def refreshHosts (on : Bool) (s : State) (name : String) (hosts : List Host) : State :=
@@ -460,7 +488,37 @@ structure Dump where
   clusters : FMap StoredCluster
   listeners : FMap ListenerCfg
 
-def dump (s : State) : Dump := ⟨s.rstore, s.cstore, s.lstore⟩
+/-- `transferConfig`: every stored router gets its remembered path back (`r.RouterConfigPath = conf.routerConfigPath[name]`) -/
+def dumpRouter (s : State) (n : String) : Option RouterCfg := (s.rstore n).map (fun c => { c with path := s.rpath n })
+
+def dump (s : State) : Dump := ⟨dumpRouter s, s.cstore, s.lstore⟩
+
+/-! ### the persisted router: `RouterConfiguration.MarshalJSON` / `UnmarshalJSON` (pkg/config/v2/route.go)
+
+What the dumped file says about one router: `router_configs` (the path), `virtual_hosts` (the static list) and — in directory
+mode — the virtual hosts written into the directory. How a directory gives its files back (`ioutil.ReadDir` order, file names,
+property C19's `dynamic_roundtrip`) is the parameter `fsr`. -/
+structure RouterFile where
+  name : String
+  path : String               -- `router_configs`
+  static : List VHost         -- `virtual_hosts`
+  dir : List VHost            -- the files of the directory `path` after the dump (directory mode only)
+  deriving DecidableEq, Repr
+
+/-- `MarshalJSON`: static mode (`RouterConfigPath == ""`) sets `StaticVirtualHosts = VirtualHosts`; directory mode writes one
+file per virtual host, removes the other files, and marshals the embedded config AS IT IS (its `StaticVirtualHosts` included). -/
+def marshalRouter (c : RouterCfg) : RouterFile :=
+  if c.path = "" then ⟨c.name, "", c.vhosts, []⟩ else ⟨c.name, c.path, c.static, c.vhosts⟩
+
+/-- `UnmarshalJSON`: both `virtual_hosts` and `router_configs` is `ErrDuplicateStaticAndDynamic` (`none`); otherwise the
+static list followed by the files of the directory. -/
+def unmarshalRouter (fsr : List VHost → List VHost) (f : RouterFile) : Option RouterCfg :=
+  if !f.static.isEmpty && f.path != "" then none
+  else some ⟨f.name, (if !f.static.isEmpty then f.static else []) ++ (if f.path != "" then fsr f.dir else []), f.path, f.static⟩
+
+/-- dump → reload of one router name: `none` = not in the dump, `some none` = the dumped file cannot be loaded -/
+def reloadRouter (fsr : List VHost → List VHost) (s : State) (n : String) : Option (Option RouterCfg) :=
+  (dumpRouter s n).map (fun c => unmarshalRouter fsr (marshalRouter c))
 
 /-- live route tables of a fresh start from a dump (`none` = no such router, `some none` = router without tables) -/
 def rebuildRouters (o : Oracle) (d : Dump) : FMap (Option Table) := fun n => (d.routers n).map (build o)
